@@ -184,6 +184,7 @@ def unit_worker_run(sess, ctx):
             gh["processed"] = []
             gh["iter"] = True
             eng.havoc_loop_locals(s, fr)
+            eng.loop_guard_holds(s, fr, props=("*",))
             try:
                 eng.exec_block(s.body, fr)
             except _Break:
@@ -625,6 +626,7 @@ def unit_stream_saver(sess, ctx):
     class Drain:
         def run_while(self, eng, s, fr):
             gh = eng.st.ghost
+            eng.loop_guard_holds(s, fr, props=P1314)
             k = eng.choose(3, None, "drain: block / stop marker / empty")
             gh["drain_kind"] = k
             blk = fresh_seq("bytes", "late")
@@ -738,6 +740,7 @@ def unit_joiner(sess, ctx):
                 raise PyRaise("Empty", ())
             gh["inbox"].next = nxt
             eng.havoc_loop_locals(s, fr)
+            eng.loop_guard_holds(s, fr, props=P1314)
             try:
                 eng.exec_block(s.body, fr)
             except _Break:
